@@ -186,10 +186,17 @@ class VClass(SV):
     name: str
 
 
+_exc_ids = itertools.count(1)
+
+
 @dataclass
 class VExc(SV):
     cls: str
     args: list = field(default_factory=list)
+    uid: object = None        # z3 Int identifying the exception object (identity survives merges)
+
+    def __post_init__(self):
+        if self.uid is None: self.uid = z3.IntVal(next(_exc_ids))
 
 
 @dataclass
@@ -342,6 +349,7 @@ def merge(c, a, b):
     if z3.is_false(c): return b
     if a is b: return a
     if isinstance(a, VNone) and isinstance(b, VNone): return a
+    if isinstance(a, z3.ExprRef) and isinstance(b, z3.ExprRef): return ITE(c, a, b)       # ghost fields holding raw terms
     if isinstance(a, (VNone, VOpt)) or isinstance(b, (VNone, VOpt)):
         a, b = as_opt(a), as_opt(b)
         if a.inner is None: inner = b.inner
@@ -406,7 +414,10 @@ def merge(c, a, b):
     if isinstance(a, VOpaque):
         if a.sort != b.sort: raise Unsupported("merge opaque sorts")
         return VOpaque(a.sort, ITE(c, a.term, b.term))
-    if isinstance(a, (VClosure, VClass, VModule, VFunc, VExc)): return a
+    if isinstance(a, VExc):
+        if a.cls != b.cls: raise Unsupported("merge exception objects of different classes")
+        return VExc(a.cls, a.args, ITE(c, a.uid, b.uid))
+    if isinstance(a, (VClosure, VClass, VModule, VFunc)): return a
     raise Unsupported(f"merge {type(a).__name__}")
 
 
@@ -414,6 +425,7 @@ def merge(c, a, b):
 def v_same(a, b):
     """structural identity of two values (used for `unchanged` / frame clauses); NaN same as NaN"""
     if a is b: return T
+    if isinstance(a, z3.ExprRef) and isinstance(b, z3.ExprRef): return a == b
     if isinstance(a, VNone) and isinstance(b, VNone): return T
     if isinstance(a, (VNone, VOpt)) or isinstance(b, (VNone, VOpt)):
         a, b = as_opt(a), as_opt(b)
@@ -440,6 +452,7 @@ def v_same(a, b):
         if a.py is not None and b.py is not None: return z3.BoolVal(a.py == b.py)
         return a.z() == b.z()
     if isinstance(a, VOpaque): return a.term == b.term
+    if isinstance(a, VExc): return a.uid == b.uid               # exception objects by identity
     if isinstance(a, VStmt):
         return AND(z3.BoolVal(len(a.cmds) == len(b.cmds)), *[v_same(x, y) for x, y in zip(a.cmds, b.cmds)],
                    v_same(a.params or VDict({}, {}), b.params or VDict({}, {})), a.has_comment == b.has_comment)
